@@ -11,7 +11,9 @@
 
   Clause map
     "recovered with that passphrase as the identical key and address"      roundtrip, roundtrip_keeps_leading_zeros,
-                                                                            short_plaintext_roundtrip (legacy files with stripped zeros)
+                                                                            short_plaintext_roundtrip (legacy files with stripped zeros),
+                                                                            update_then_read, update_then_unlock (file = last write),
+                                                                            write_without_truncation_leaves_residue
     "with any other passphrase unlocking fails with an error"              wrong_pass_rejected, wrong_pass_never_unlocks
     "after modification of ciphertext, MAC, salt, KDF parameters ..."      tamper_ct_mac_salt_params_rejected,
                                                                             tamper_ct_rejected, tamper_mac_rejected
@@ -110,6 +112,41 @@ theorem short_plaintext_roundtrip (P : Prims) (f : KeyFile) (pw : Bytes) (d n : 
   unfold getKey
   rw [hdk]
   simp
+
+/-- KeyStore.Update / writeKeyFile: the stored file after a write is EXACTLY the new blob — whatever was there before, of
+    whatever length (a longer scrypt-N encoding, an indented or v1 file): no residue; other paths are untouched. -/
+theorem update_then_read (d : Disk) (path blob : Bytes) :
+    writeFile d path blob path = some blob ∧ ∀ q, q ≠ path → writeFile d path blob q = d q := by
+  refine ⟨by simp [writeFile], ?_⟩
+  intro q hq
+  simp [writeFile, hq]
+
+/-- why the truncation matters: a write that does not truncate equals the new blob only if the old content was not longer. -/
+theorem write_without_truncation_leaves_residue (old new : Bytes) : writeNoTrunc old new = new ↔ old.length ≤ new.length := by
+  unfold writeNoTrunc
+  constructor
+  · intro h
+    have := congrArg List.length h
+    simp only [List.length_append, List.length_drop] at this
+    omega
+  · intro h
+    rw [List.drop_of_length_le h, List.append_nil]
+
+/-- Update = GetKey under the old passphrase, EncryptKey under the new one, write: afterwards the path holds the new file
+    only, it opens under the NEW passphrase to the identical key and address, and every other path is as before. -/
+theorem update_then_unlock (P : Prims) (s : Store) (path : Bytes) (d : Nat) (hd : d < secpN)
+    (id pwOld pwNew salt iv : Bytes) (n p : Int) (hp0 : 0 < p)
+    (_hold : getKeyAt P s (P.addrOf d) path pwOld = some (.ok ⟨d, P.addrOf d⟩))   -- Update got the key with the old passphrase
+    (buf : Bytes) (len : Nat) (hk : P.kdf (.scrypt pwNew salt n scryptR p scryptDKLen) = .ok buf len)
+    (hcap : 32 ≤ buf.length) (hiv : iv.length = 16) :
+    ∃ fNew, encryptKey P d (P.addrOf d) id pwNew salt iv n p = .ok fNew ∧
+      getKeyAt P (s.write path fNew) (P.addrOf d) path pwNew = some (.ok ⟨d, P.addrOf d⟩) ∧
+      ∀ q, q ≠ path → (s.write path fNew) q = s q := by
+  obtain ⟨f, h1, _, _, h4⟩ := roundtrip P d hd (P.addrOf d) id pwNew salt iv n p hp0 rfl buf len hk hcap hiv
+  refine ⟨f, h1, ?_, ?_⟩
+  · simp [getKeyAt, Store.write, h4]
+  · intro q hq
+    simp [Store.write, hq]
 
 /-! ## 2. Wrong passphrase -/
 
@@ -640,6 +677,9 @@ example : ∃ f, encryptKey toyP 5 (toyP.addrOf 5) [] (ascii "pw") [1, 2, 3] wIv
   obtain ⟨f, h1, _, h3, _⟩ := roundtrip toyP 5 (by decide) (toyP.addrOf 5) [] (ascii "pw") [1, 2, 3] wIv 2 1 (by decide) rfl
     ((List.range 32).map UInt8.ofNat) 32 rfl (by decide) (by decide)
   exact ⟨f, h1, h3⟩
+
+/-- write_without_truncation_leaves_residue: an old content one byte longer than the new one leaves its last byte behind. -/
+example : writeNoTrunc [1, 2, 3] [9, 9] = [9, 9, 3] := by decide
 
 /-- short_plaintext_roundtrip: the witness file with its ciphertext cut to the last byte (plaintext = the 1-byte blob 05, the 31
     zero bytes stripped; MAC recomputed — H is the identity here) still opens to scalar 5. -/
